@@ -198,7 +198,7 @@ impl UnixStream {
 }
 
 // ===================================================================== server.rs: signals -> commands
-#[derive(Clone, Copy)]
+#[derive(Clone, Copy, PartialEq, Eq, Structural)]
 //@extract_type file=actix-server/src/signals.rs item="enum SignalKind"
 /// actix_rt::signal::unix::Signal (tokio): a stream of deliveries of one OS signal.  PROPHECY name `ready_now()`: whether
 /// a delivery is pending at the (one) poll made during the verified call.
